@@ -9,6 +9,7 @@ import MysticVerif.Props.C01
 import MysticVerif.Props.C01Ensemble
 import MysticVerif.Props.C05
 import MysticVerif.Props.C04
+import MysticVerif.Props.C04Brent
 
 namespace MysticVerif.SolveProps
 open MysticVerif.Solver MysticVerif.Closed
